@@ -318,18 +318,19 @@ def case_factory(ctx, c, classes):
     def wt(alpha):
         return u * numpy.power(numpy.where(faf > 0, faf, 1.0), -alpha)
     alpha = float(g.choice([0.0, 0.3, 0.5, 1.0]))
+    SP = [None]      # candidate list handed to the subset problems (None = all taxa in order)
     table = {
-        "EstimatedBreedingValue": (lambda cl, enc, k: cl.from_bvmat(bvmat=bv, unscale=True, **common(enc, n, k, t)), lambda cc: -(cc @ raw), "from_bvmat"),
-        "GenomicEstimatedBreedingValue": (lambda cl, enc, k: cl.from_gmat_gpmod(gmat=pg, gpmod=mod, unscale=True, **common(enc, n, k, t)), lambda cc: -(cc @ (Z @ u + beta[0])), "from_gmat_gpmod"),
-        "GeneralizedWeightedGenomicEstimatedBreedingValue": (lambda cl, enc, k: cl.from_gmat_algpmod(gmat=un, algpmod=mod, alpha=alpha, **common(enc, n, k, t)), lambda cc: -(cc @ (Z @ wt(alpha))), "from_gmat_algpmod"),
-        "WeightedGenomic": (lambda cl, enc, k: cl.from_gmat_algpmod(gmat=un, algpmod=mod, **common(enc, n, k, t)), lambda cc: -(cc @ (Z @ wt(0.5))), "from_gmat_algpmod"),
-        "OptimalContribution": (lambda cl, enc, k: cl.from_bvmat_gmat(bvmat=bv, gmat=pg, cmatfcty=DenseMolecularCoancestryMatrixFactory(), unscale=True, **common(enc, n, k, 1 + t)),
+        "EstimatedBreedingValue": (lambda cl, enc, k: cl.from_bvmat(bvmat=bv, unscale=True, **common(enc, n, k, t, space=SP[0])), lambda cc: -(cc @ raw), "from_bvmat"),
+        "GenomicEstimatedBreedingValue": (lambda cl, enc, k: cl.from_gmat_gpmod(gmat=pg, gpmod=mod, unscale=True, **common(enc, n, k, t, space=SP[0])), lambda cc: -(cc @ (Z @ u + beta[0])), "from_gmat_gpmod"),
+        "GeneralizedWeightedGenomicEstimatedBreedingValue": (lambda cl, enc, k: cl.from_gmat_algpmod(gmat=un, algpmod=mod, alpha=alpha, **common(enc, n, k, t, space=SP[0])), lambda cc: -(cc @ (Z @ wt(alpha))), "from_gmat_algpmod"),
+        "WeightedGenomic": (lambda cl, enc, k: cl.from_gmat_algpmod(gmat=un, algpmod=mod, **common(enc, n, k, t, space=SP[0])), lambda cc: -(cc @ (Z @ wt(0.5))), "from_gmat_algpmod"),
+        "OptimalContribution": (lambda cl, enc, k: cl.from_bvmat_gmat(bvmat=bv, gmat=pg, cmatfcty=DenseMolecularCoancestryMatrixFactory(), unscale=True, **common(enc, n, k, 1 + t, space=SP[0])),
                                 lambda cc: numpy.r_[numpy.sqrt(cc @ K @ cc), -(cc @ raw)], "from_bvmat_gmat"),
-        "MeanExpectedHeterozygosity": (lambda cl, enc, k: cl.from_gmat(gmat=pg, cmatfcty=DenseMolecularCoancestryMatrixFactory(), **common(enc, n, k, 1)),
+        "MeanExpectedHeterozygosity": (lambda cl, enc, k: cl.from_gmat(gmat=pg, cmatfcty=DenseMolecularCoancestryMatrixFactory(), **common(enc, n, k, 1, space=SP[0])),
                                        lambda cc: numpy.r_[-(1 - numpy.sqrt(cc @ K @ cc))], "from_gmat"),
-        "MeanGenomicRelationship": (lambda cl, enc, k: cl.from_gmat(gmat=pg, cmatfcty=DenseMolecularCoancestryMatrixFactory(), **common(enc, n, k, 1)),
+        "MeanGenomicRelationship": (lambda cl, enc, k: cl.from_gmat(gmat=pg, cmatfcty=DenseMolecularCoancestryMatrixFactory(), **common(enc, n, k, 1, space=SP[0])),
                                     lambda cc: numpy.r_[numpy.sqrt(cc @ K @ cc)], "from_gmat"),
-        "FamilyEstimatedBreedingValue": (lambda cl, enc, k: cl.from_bvmat(bvmat=bv, **common(enc, n, k, t + len(fams))),
+        "FamilyEstimatedBreedingValue": (lambda cl, enc, k: cl.from_bvmat(bvmat=bv, **common(enc, n, k, t + len(fams), space=SP[0])),
                                          lambda cc: numpy.r_[-(cc @ bv.mat), -numpy.array([cc[fam_ids == f].sum() for f in fams])], "from_bvmat"),
     }
     fam = list(table)[c % len(table)]
@@ -346,6 +347,11 @@ def case_factory(ctx, c, classes):
         if cname not in classes:
             continue
         ctx.case("factory:%s.%s" % (cname, fname), cname, pg.mat, raw, u, members)
+        SP[0] = None; ecls = "%s encoding" % enc
+        if enc == "Subset" and g.random() < 0.4:
+            others = numpy.setdiff1d(numpy.arange(n), members)
+            SP[0] = g.permutation(numpy.r_[members, others[g.random(len(others)) < 0.5]]).astype("int64")
+            ecls += "/restricted candidate list in arbitrary order"
         try:
             prob = build(classes[cname], enc, k)
             lat = numpy.asarray(prob.latentfn(render(enc, cnt, g)), dtype=float)
@@ -357,7 +363,7 @@ def case_factory(ctx, c, classes):
             ok = bool(numpy.all(numpy.abs(lat - expected) <= 1e-5 * (1 + numpy.abs(expected))))
         else:
             ok = near(lat, expected)[0]
-        ctx.check("C05.factory", ok, "%s.%s" % (cname, fname), "problem holds the population's data in the population's taxon order", "%s encoding" % enc,
+        ctx.check("C05.factory", ok, "%s.%s" % (cname, fname), "problem holds the population's data in the population's taxon order", ecls,
                   witness={"class": cname, "members": members, "got": lat, "expected": expected, "taxa": pg.taxa}, coords=[c, "fcty"])
 
 
